@@ -132,7 +132,8 @@ SpellVal(v, sty, pre3) ==
       [] v[1] = 16 -> (IF v[2] = <<>> THEN (IF sty.list = 1 THEN <<LB, RB>> ELSE <<LB, SP, RB>>)
                        ELSE (IF sty.list = 3 THEN <<LB, SP>> ELSE <<LB>>)
                             \o Join([i \in 1..Len(v[2]) |-> SpellVal(v[2][i], sty, pre3)], Sep(sty))
-                            \o (IF sty.list = 2 THEN <<COMMA>> ELSE IF sty.list = 3 THEN <<SP>> ELSE <<>>) \o <<RB>>)
+                            \o (IF sty.list = 2 THEN <<COMMA>> ELSE IF sty.list = 3 THEN <<SP>>
+                                ELSE IF sty.list = 4 THEN <<SP, COMMA, SP>> ELSE <<>>) \o <<RB>>)
       [] v[1] = 17 -> <<LC>> \o (IF sty.list = 3 /\ v[2] # <<>> THEN <<SP>> ELSE <<>>)
                        \o SpellTags(v[2], sty, pre3)
                        \o (IF sty.list = 3 /\ v[2] # <<>> THEN <<SP>> ELSE <<>>) \o <<RC>>
@@ -172,5 +173,5 @@ DocDenotes(grids, sty) == [i \in 1..Len(grids) |-> Denotes(grids[i], sty)]
 DefaultStyle == [num |-> 1, esc |-> 1, frac |-> 1, dt |-> 1, coord |-> 1, sep |-> 1, nl |-> 1, mark |-> 1,
                  list |-> 1, empty |-> 1, gap |-> 1, fin |-> 1]
 StyleRanges == [num |-> 4, esc |-> 3, frac |-> 3, dt |-> 5, coord |-> 3, sep |-> 3, nl |-> 2, mark |-> 2,
-                list |-> 3, empty |-> 2, gap |-> 3, fin |-> 2]
+                list |-> 4, empty |-> 2, gap |-> 3, fin |-> 2]
 =============================================================================
